@@ -496,7 +496,7 @@ mod imp {
                             if c != last.0 {
                                 last = (c, Instant::now());
                             } else {
-                                let limit = if CONFIRMED.load(Ordering::SeqCst) { Duration::from_millis(300) } else { Duration::from_secs(5) };
+                                let limit = if CONFIRMED.load(Ordering::SeqCst) { Duration::from_secs(3) } else { Duration::from_secs(20) };
                                 if last.1.elapsed() > limit {
                                     CONFIRMED.store(true, Ordering::SeqCst);
                                     return;
